@@ -600,21 +600,20 @@ __strfdtdur(
 
 			/* time specs */
 		case DT_SPFL_N_TSTD:
-			if (UNLIKELY(spec.tai)) {
-				pre.S += __strf_tot_corr(dur);
-			}
-			bp += ltostr(bp, eo - bp, pre.S, -1, DT_SPPAD_NONE);
+			bp += ltostr(bp, eo - bp,
+				     !spec.tai
+				     ? pre.S : pre.S + __strf_tot_corr(dur),
+				     -1, DT_SPPAD_NONE);
 			if (bp < eo) {
 				*bp++ = 's';
 			}
 			break;
 
 		case DT_SPFL_N_SEC:
-			if (UNLIKELY(spec.tai)) {
-				pre.S += __strf_tot_corr(dur);
-			}
-
-			bp += ltostr(bp, eo - bp, pre.S, 2, spec.pad);
+			bp += ltostr(bp, eo - bp,
+				     !spec.tai
+				     ? pre.S : pre.S + __strf_tot_corr(dur),
+				     2, spec.pad);
 			break;
 
 		case DT_SPFL_N_MIN:
